@@ -414,8 +414,6 @@ class Histogram():
         If both *bins* and *make_bins* are provided,
         :exc:`.LenaTypeError` is raised.
         """
-        self._hist = histogram(edges, bins)
-
         if make_bins is not None and bins is not None:
             raise LenaTypeError(
                 "either initial bins or make_bins must be provided, "
@@ -424,12 +422,15 @@ class Histogram():
 
         # may be None
         self._initial_bins = copy.deepcopy(bins)
+        self._initial_value = initial_value
 
         # todo: bins, make_bins, initial_value look redundant
         # and may be reconsidered when really using reset().
         if make_bins:
             bins = make_bins()
         self._make_bins = make_bins
+
+        self._hist = histogram(edges, bins, initial_value)
 
         self._cur_context = {}
 
@@ -456,10 +457,13 @@ class Histogram():
         or with *make_bins()* (depending on the initialization).
         """
         if self._make_bins is not None:
-            self.bins = self._make_bins()
+            bins = self._make_bins()
         elif self._initial_bins is not None:
-            self.bins = copy.deepcopy(self._initial_bins)
+            bins = copy.deepcopy(self._initial_bins)
         else:
-            self.bins = hf.init_bins(self.edges, self._initial_value)
+            bins = None
 
+        # a new histogram is created, because the previous one
+        # could have been yielded from compute
+        self._hist = histogram(self._hist.edges, bins, self._initial_value)
         self._cur_context = {}
